@@ -82,6 +82,8 @@ def generate(seed, tier):
                 pat = '@PAT' if nasty else '@PATB'       # a pattern the host compiled and bound in names
             subj_kind = weighted(ro, [('short', 4), ('adversarial', 3 if nasty else 0.5), ('long', 1.5), ('huge', 0.4)])
             subj = {'short': ['name', 'S'], 'adversarial': ['name', 'ADV'], 'long': ['name', 'LONG'], 'huge': ['name', 'HUGE']}[subj_kind]
+            if nasty and ro.random() < 0.12:
+                subj = ['name', 'ML']       # many short lines: the whole text times out, no single line would
             if ro.random() < 0.06:
                 subj = ro.choice([['none'], ['num', '1'], ['list', [['str', 'a']]], ['name', 'timeout']])      # not a string at all: the call fails
             flags = ro.choice(FLAGS)
@@ -143,6 +145,7 @@ def execute(case, ctx):
     if w.get('premature') and REGEX.inject_timeouts:
         REGEX.premature_left = 60
         ctx.fault('regex_timeouts_arrive_early')
+    names['ML'] = 'aaaaaaaaab\n' * 200
     names['timeout'] = 20        # plain data that happens to be called like a keyword argument of the engine
     state = {'adv_after_wait': False}
 
